@@ -13,68 +13,95 @@ type Value = atomic.Value
 
 type Bool struct{ v atomic.Bool }
 
-func (x *Bool) Load() bool                      { simrt.Yield("atomic.Load"); return x.v.Load() }
-func (x *Bool) Store(val bool)                  { simrt.Yield("atomic.Store"); x.v.Store(val) }
-func (x *Bool) Swap(new bool) bool              { simrt.Yield("atomic.Swap"); return x.v.Swap(new) }
-func (x *Bool) CompareAndSwap(old, new bool) bool { simrt.Yield("atomic.CAS"); return x.v.CompareAndSwap(old, new) }
+func (x *Bool) Load() bool         { simrt.Yield("atomic.Load"); return x.v.Load() }
+func (x *Bool) Store(val bool)     { simrt.Yield("atomic.Store"); x.v.Store(val) }
+func (x *Bool) Swap(new bool) bool { simrt.Yield("atomic.Swap"); return x.v.Swap(new) }
+func (x *Bool) CompareAndSwap(old, new bool) bool {
+	simrt.Yield("atomic.CAS")
+	return x.v.CompareAndSwap(old, new)
+}
 
 type Int32 struct{ v atomic.Int32 }
 
-func (x *Int32) Load() int32                       { simrt.Yield("atomic.Load"); return x.v.Load() }
-func (x *Int32) Store(val int32)                   { simrt.Yield("atomic.Store"); x.v.Store(val) }
-func (x *Int32) Swap(new int32) int32              { simrt.Yield("atomic.Swap"); return x.v.Swap(new) }
-func (x *Int32) CompareAndSwap(old, new int32) bool { simrt.Yield("atomic.CAS"); return x.v.CompareAndSwap(old, new) }
-func (x *Int32) Add(d int32) int32                 { simrt.Yield("atomic.Add"); return x.v.Add(d) }
-func (x *Int32) And(m int32) int32                 { simrt.Yield("atomic.And"); return x.v.And(m) }
-func (x *Int32) Or(m int32) int32                  { simrt.Yield("atomic.Or"); return x.v.Or(m) }
+func (x *Int32) Load() int32          { simrt.Yield("atomic.Load"); return x.v.Load() }
+func (x *Int32) Store(val int32)      { simrt.Yield("atomic.Store"); x.v.Store(val) }
+func (x *Int32) Swap(new int32) int32 { simrt.Yield("atomic.Swap"); return x.v.Swap(new) }
+func (x *Int32) CompareAndSwap(old, new int32) bool {
+	simrt.Yield("atomic.CAS")
+	return x.v.CompareAndSwap(old, new)
+}
+func (x *Int32) Add(d int32) int32 { simrt.Yield("atomic.Add"); return x.v.Add(d) }
+func (x *Int32) And(m int32) int32 { simrt.Yield("atomic.And"); return x.v.And(m) }
+func (x *Int32) Or(m int32) int32  { simrt.Yield("atomic.Or"); return x.v.Or(m) }
 
 type Int64 struct{ v atomic.Int64 }
 
-func (x *Int64) Load() int64                       { simrt.Yield("atomic.Load"); return x.v.Load() }
-func (x *Int64) Store(val int64)                   { simrt.Yield("atomic.Store"); x.v.Store(val) }
-func (x *Int64) Swap(new int64) int64              { simrt.Yield("atomic.Swap"); return x.v.Swap(new) }
-func (x *Int64) CompareAndSwap(old, new int64) bool { simrt.Yield("atomic.CAS"); return x.v.CompareAndSwap(old, new) }
-func (x *Int64) Add(d int64) int64                 { simrt.Yield("atomic.Add"); return x.v.Add(d) }
-func (x *Int64) And(m int64) int64                 { simrt.Yield("atomic.And"); return x.v.And(m) }
-func (x *Int64) Or(m int64) int64                  { simrt.Yield("atomic.Or"); return x.v.Or(m) }
+func (x *Int64) Load() int64          { simrt.Yield("atomic.Load"); return x.v.Load() }
+func (x *Int64) Store(val int64)      { simrt.Yield("atomic.Store"); x.v.Store(val) }
+func (x *Int64) Swap(new int64) int64 { simrt.Yield("atomic.Swap"); return x.v.Swap(new) }
+func (x *Int64) CompareAndSwap(old, new int64) bool {
+	simrt.Yield("atomic.CAS")
+	return x.v.CompareAndSwap(old, new)
+}
+func (x *Int64) Add(d int64) int64 { simrt.Yield("atomic.Add"); return x.v.Add(d) }
+func (x *Int64) And(m int64) int64 { simrt.Yield("atomic.And"); return x.v.And(m) }
+func (x *Int64) Or(m int64) int64  { simrt.Yield("atomic.Or"); return x.v.Or(m) }
 
 type Uint32 struct{ v atomic.Uint32 }
 
-func (x *Uint32) Load() uint32                       { simrt.Yield("atomic.Load"); return x.v.Load() }
-func (x *Uint32) Store(val uint32)                   { simrt.Yield("atomic.Store"); x.v.Store(val) }
-func (x *Uint32) Swap(new uint32) uint32             { simrt.Yield("atomic.Swap"); return x.v.Swap(new) }
-func (x *Uint32) CompareAndSwap(old, new uint32) bool { simrt.Yield("atomic.CAS"); return x.v.CompareAndSwap(old, new) }
-func (x *Uint32) Add(d uint32) uint32                { simrt.Yield("atomic.Add"); return x.v.Add(d) }
-func (x *Uint32) And(m uint32) uint32                { simrt.Yield("atomic.And"); return x.v.And(m) }
-func (x *Uint32) Or(m uint32) uint32                 { simrt.Yield("atomic.Or"); return x.v.Or(m) }
+func (x *Uint32) Load() uint32           { simrt.Yield("atomic.Load"); return x.v.Load() }
+func (x *Uint32) Store(val uint32)       { simrt.Yield("atomic.Store"); x.v.Store(val) }
+func (x *Uint32) Swap(new uint32) uint32 { simrt.Yield("atomic.Swap"); return x.v.Swap(new) }
+func (x *Uint32) CompareAndSwap(old, new uint32) bool {
+	simrt.Yield("atomic.CAS")
+	return x.v.CompareAndSwap(old, new)
+}
+func (x *Uint32) Add(d uint32) uint32 { simrt.Yield("atomic.Add"); return x.v.Add(d) }
+func (x *Uint32) And(m uint32) uint32 { simrt.Yield("atomic.And"); return x.v.And(m) }
+func (x *Uint32) Or(m uint32) uint32  { simrt.Yield("atomic.Or"); return x.v.Or(m) }
 
 type Uint64 struct{ v atomic.Uint64 }
 
-func (x *Uint64) Load() uint64                       { simrt.Yield("atomic.Load"); return x.v.Load() }
-func (x *Uint64) Store(val uint64)                   { simrt.Yield("atomic.Store"); x.v.Store(val) }
-func (x *Uint64) Swap(new uint64) uint64             { simrt.Yield("atomic.Swap"); return x.v.Swap(new) }
-func (x *Uint64) CompareAndSwap(old, new uint64) bool { simrt.Yield("atomic.CAS"); return x.v.CompareAndSwap(old, new) }
-func (x *Uint64) Add(d uint64) uint64                { simrt.Yield("atomic.Add"); return x.v.Add(d) }
-func (x *Uint64) And(m uint64) uint64                { simrt.Yield("atomic.And"); return x.v.And(m) }
-func (x *Uint64) Or(m uint64) uint64                 { simrt.Yield("atomic.Or"); return x.v.Or(m) }
+func (x *Uint64) Load() uint64           { simrt.Yield("atomic.Load"); return x.v.Load() }
+func (x *Uint64) Store(val uint64)       { simrt.Yield("atomic.Store"); x.v.Store(val) }
+func (x *Uint64) Swap(new uint64) uint64 { simrt.Yield("atomic.Swap"); return x.v.Swap(new) }
+func (x *Uint64) CompareAndSwap(old, new uint64) bool {
+	simrt.Yield("atomic.CAS")
+	return x.v.CompareAndSwap(old, new)
+}
+func (x *Uint64) Add(d uint64) uint64 { simrt.Yield("atomic.Add"); return x.v.Add(d) }
+func (x *Uint64) And(m uint64) uint64 { simrt.Yield("atomic.And"); return x.v.And(m) }
+func (x *Uint64) Or(m uint64) uint64  { simrt.Yield("atomic.Or"); return x.v.Or(m) }
 
 type Uintptr struct{ v atomic.Uintptr }
 
-func (x *Uintptr) Load() uintptr                       { simrt.Yield("atomic.Load"); return x.v.Load() }
-func (x *Uintptr) Store(val uintptr)                   { simrt.Yield("atomic.Store"); x.v.Store(val) }
-func (x *Uintptr) Swap(new uintptr) uintptr            { simrt.Yield("atomic.Swap"); return x.v.Swap(new) }
-func (x *Uintptr) CompareAndSwap(old, new uintptr) bool { simrt.Yield("atomic.CAS"); return x.v.CompareAndSwap(old, new) }
-func (x *Uintptr) Add(d uintptr) uintptr               { simrt.Yield("atomic.Add"); return x.v.Add(d) }
+func (x *Uintptr) Load() uintptr            { simrt.Yield("atomic.Load"); return x.v.Load() }
+func (x *Uintptr) Store(val uintptr)        { simrt.Yield("atomic.Store"); x.v.Store(val) }
+func (x *Uintptr) Swap(new uintptr) uintptr { simrt.Yield("atomic.Swap"); return x.v.Swap(new) }
+func (x *Uintptr) CompareAndSwap(old, new uintptr) bool {
+	simrt.Yield("atomic.CAS")
+	return x.v.CompareAndSwap(old, new)
+}
+func (x *Uintptr) Add(d uintptr) uintptr { simrt.Yield("atomic.Add"); return x.v.Add(d) }
 
 type Pointer[T any] struct{ v atomic.Pointer[T] }
 
-func (x *Pointer[T]) Load() *T                       { simrt.Yield("atomic.Load"); return x.v.Load() }
-func (x *Pointer[T]) Store(val *T)                   { simrt.Yield("atomic.Store"); x.v.Store(val) }
-func (x *Pointer[T]) Swap(new *T) *T                 { simrt.Yield("atomic.Swap"); return x.v.Swap(new) }
-func (x *Pointer[T]) CompareAndSwap(old, new *T) bool { simrt.Yield("atomic.CAS"); return x.v.CompareAndSwap(old, new) }
+func (x *Pointer[T]) Load() *T       { simrt.Yield("atomic.Load"); return x.v.Load() }
+func (x *Pointer[T]) Store(val *T)   { simrt.Yield("atomic.Store"); x.v.Store(val) }
+func (x *Pointer[T]) Swap(new *T) *T { simrt.Yield("atomic.Swap"); return x.v.Swap(new) }
+func (x *Pointer[T]) CompareAndSwap(old, new *T) bool {
+	simrt.Yield("atomic.CAS")
+	return x.v.CompareAndSwap(old, new)
+}
 
-func AddInt32(addr *int32, delta int32) int32 { simrt.Yield("atomic.Add"); return atomic.AddInt32(addr, delta) }
-func AddInt64(addr *int64, delta int64) int64 { simrt.Yield("atomic.Add"); return atomic.AddInt64(addr, delta) }
+func AddInt32(addr *int32, delta int32) int32 {
+	simrt.Yield("atomic.Add")
+	return atomic.AddInt32(addr, delta)
+}
+func AddInt64(addr *int64, delta int64) int64 {
+	simrt.Yield("atomic.Add")
+	return atomic.AddInt64(addr, delta)
+}
 func AddUint32(addr *uint32, delta uint32) uint32 {
 	simrt.Yield("atomic.Add")
 	return atomic.AddUint32(addr, delta)
@@ -83,26 +110,44 @@ func AddUint64(addr *uint64, delta uint64) uint64 {
 	simrt.Yield("atomic.Add")
 	return atomic.AddUint64(addr, delta)
 }
-func LoadInt32(addr *int32) int32       { simrt.Yield("atomic.Load"); return atomic.LoadInt32(addr) }
-func LoadInt64(addr *int64) int64       { simrt.Yield("atomic.Load"); return atomic.LoadInt64(addr) }
-func LoadUint32(addr *uint32) uint32    { simrt.Yield("atomic.Load"); return atomic.LoadUint32(addr) }
-func LoadUint64(addr *uint64) uint64    { simrt.Yield("atomic.Load"); return atomic.LoadUint64(addr) }
+func LoadInt32(addr *int32) int32    { simrt.Yield("atomic.Load"); return atomic.LoadInt32(addr) }
+func LoadInt64(addr *int64) int64    { simrt.Yield("atomic.Load"); return atomic.LoadInt64(addr) }
+func LoadUint32(addr *uint32) uint32 { simrt.Yield("atomic.Load"); return atomic.LoadUint32(addr) }
+func LoadUint64(addr *uint64) uint64 { simrt.Yield("atomic.Load"); return atomic.LoadUint64(addr) }
 func LoadPointer(addr *unsafe.Pointer) unsafe.Pointer {
 	simrt.Yield("atomic.Load")
 	return atomic.LoadPointer(addr)
 }
-func StoreInt32(addr *int32, val int32)    { simrt.Yield("atomic.Store"); atomic.StoreInt32(addr, val) }
-func StoreInt64(addr *int64, val int64)    { simrt.Yield("atomic.Store"); atomic.StoreInt64(addr, val) }
-func StoreUint32(addr *uint32, val uint32) { simrt.Yield("atomic.Store"); atomic.StoreUint32(addr, val) }
-func StoreUint64(addr *uint64, val uint64) { simrt.Yield("atomic.Store"); atomic.StoreUint64(addr, val) }
+func StoreInt32(addr *int32, val int32) { simrt.Yield("atomic.Store"); atomic.StoreInt32(addr, val) }
+func StoreInt64(addr *int64, val int64) { simrt.Yield("atomic.Store"); atomic.StoreInt64(addr, val) }
+func StoreUint32(addr *uint32, val uint32) {
+	simrt.Yield("atomic.Store")
+	atomic.StoreUint32(addr, val)
+}
+func StoreUint64(addr *uint64, val uint64) {
+	simrt.Yield("atomic.Store")
+	atomic.StoreUint64(addr, val)
+}
 func StorePointer(addr *unsafe.Pointer, val unsafe.Pointer) {
 	simrt.Yield("atomic.Store")
 	atomic.StorePointer(addr, val)
 }
-func SwapInt32(addr *int32, new int32) int32    { simrt.Yield("atomic.Swap"); return atomic.SwapInt32(addr, new) }
-func SwapInt64(addr *int64, new int64) int64    { simrt.Yield("atomic.Swap"); return atomic.SwapInt64(addr, new) }
-func SwapUint32(addr *uint32, new uint32) uint32 { simrt.Yield("atomic.Swap"); return atomic.SwapUint32(addr, new) }
-func SwapUint64(addr *uint64, new uint64) uint64 { simrt.Yield("atomic.Swap"); return atomic.SwapUint64(addr, new) }
+func SwapInt32(addr *int32, new int32) int32 {
+	simrt.Yield("atomic.Swap")
+	return atomic.SwapInt32(addr, new)
+}
+func SwapInt64(addr *int64, new int64) int64 {
+	simrt.Yield("atomic.Swap")
+	return atomic.SwapInt64(addr, new)
+}
+func SwapUint32(addr *uint32, new uint32) uint32 {
+	simrt.Yield("atomic.Swap")
+	return atomic.SwapUint32(addr, new)
+}
+func SwapUint64(addr *uint64, new uint64) uint64 {
+	simrt.Yield("atomic.Swap")
+	return atomic.SwapUint64(addr, new)
+}
 func CompareAndSwapInt32(addr *int32, old, new int32) bool {
 	simrt.Yield("atomic.CAS")
 	return atomic.CompareAndSwapInt32(addr, old, new)
